@@ -476,7 +476,6 @@ func (p *Prog) liveInstrsOf(fn *ssa.Function) []ssa.Instruction {
 	return out
 }
 
-
 // FieldVal returns the symbolic value that the store gives to field f.
 func (st FieldStore) FieldVal(fi *FuncInfo, f *types.Var) *Sym {
 	v := fi.Sym(st.Val)
